@@ -121,4 +121,7 @@ example : start { reported := some [2, 1], explicit := none, isLocal := false, h
 example : start { reported := some [3, 0], explicit := some [3], isLocal := true, hasTimeRes := true, hasMaxAdv := true } = none := by decide
 example : ([2, 10] : List Nat) ≥ [2, 2] ∧ ([3] : List Nat) < [3, 0] ∧ ¬ ([3, 0, 1] : List Nat) ≥ [4] := by decide
 
+/-- an explicitly reported simulator type is respected whatever the version; only a missing one is defaulted -/
+theorem explicit_type_respected (s : Adapters.Started) (t : Nat) : Adapters.metaType s (some t) = some t := rfl
+
 end Mosaik.C15
